@@ -189,6 +189,14 @@ ShapesP256 == {"h32/h32", "l32/l32", "h32/l32", "l32/h32", "b31l/any", "b31h/any
                "b30/any"}
 \* libsecp256k1 (the verifier's library) refuses high-s by design and BOLOS signs low-s: no s = h32
 ShapesSecp == {"h32/l32", "l32/l32", "b31l/any", "b31h/any", "any/b31l", "any/b31h", "b30/any"}
+\* the quote signature - which the enclave also hands out DER-encoded by its own encoder - is explored
+\* over every class of r with every class of s
+Comps == {"h32", "l32", "b31l", "b31h", "b30"}
+ShapesQuote == {a \o "/" \o b : a \in Comps, b \in Comps}
+\* firmware/src/hal/sgx/src/trusted/der_utils.c decides about the sign byte before trimming leading
+\* zeros: a component 00 8x.. is answered as a DER integer WITHOUT sign byte (not what a library emits)
+FwStandard(cls) == cls \notin {a \o "/" \o b : a \in {"b31h"}, b \in Comps \cup {"any"}}
+                   /\ cls \notin {a \o "/" \o b : a \in Comps \cup {"any"}, b \in {"b31h"}}
 SigSites(p) == IF p = "ledger" THEN {"dc", "en", "ui", "sg", "all"}
                ELSE {"q_sig", "qe_sig", "pck", "pca", "root", "all"}
 \* explored on genuine devices of the plain shape, with a typed UD value and the root from a file
@@ -197,11 +205,14 @@ ShapeChoices(p, fr, c, a, nt) ==
     (IF a = [site |-> "none", idx |-> 0] /\ c = Cfg1(p, fr) /\ nt = Net("hex", 0, "file")
      THEN {[site |-> st, cls |-> cl] : st \in SigSites(p),
                                        cl \in IF p = "ledger" THEN ShapesSecp ELSE ShapesP256}
+          \cup (IF p = "sgx" THEN {[site |-> "q_sig", cls |-> cl] : cl \in ShapesQuote} ELSE {})
      ELSE {})
 ShapeAt(site) == IF shape.site \in {site, "all"} THEN shape.cls ELSE "any"
 \* a 32-byte field that starts with a zero byte followed by a byte below 0x80: its DER integer must
 \* drop the zero (minimal encoding)
 NeedsStrip(cls) == cls \in {"b31l/any", "any/b31l", "b30/any"}
+                   \/ cls \in {a \o "/" \o b : a \in {"b31l", "b30"}, b \in Comps}
+                   \/ cls \in {a \o "/" \o b : a \in Comps, b \in {"b31l", "b30"}}
 \* raw (r, s) of the envelope -> DER, as the gatherer does it
 ToDer(sig, cls) == IF Bug = "derpad" /\ NeedsStrip(cls) THEN NoSig ELSE sig
 
@@ -527,7 +538,10 @@ SxParse   == /\ pc = "sx_parse" /\ Keep /\ UNCHANGED acc
                 ELSE Go("sx_conv") /\ UNCHANGED obs
 \* conversions: the attestation key must be a curve point; element constructors refuse empty fields
 SxConvert == /\ pc = "sx_conv" /\ Keep /\ UNCHANGED acc
-             /\ IF EnvParts.attkey = "X" \/ (EmptyAuthRefused /\ cfg.qeauth = 0) THEN FailAttest
+             /\ IF EnvParts.attkey = "X" \/ (EmptyAuthRefused /\ cfg.qeauth = 0)
+                   \* the answer to OP_GET is ignored; a host that compared it with its own DER encoding
+                   \* of the envelope's (r, s) would refuse the enclave's non-standard integers
+                   \/ (Bug = "sigcheck" /\ ~FwStandard(ShapeAt("q_sig"))) THEN FailAttest
                 ELSE Go("sx_save") /\ UNCHANGED obs
 FileX == LET p == EnvParts IN
          << El("quote", "attestation", "none", p.quote, ToDer(p.qsig, ShapeAt("q_sig")), <<p.custom>>),
